@@ -489,6 +489,27 @@ _AMEND = {
              "spellings and the usesTime/format method it effectively has "
              "(own or inherited) against a reference for that style.")],
 }
+_AMEND["C01"].append(
+    ("text", "and that every call through a datatype slot",
+     "that the implementer table an abstract slot consults is filled under "
+     "'implements' only and that the parser gives the matcher the same "
+     "normalised type and name at both ends of a section; and that every call "
+     "through a datatype slot"))
+_AMEND.setdefault("C06", []).append(
+    ("text", "Does not decide equality of outcomes",
+     "Also decides that an %include reads the named resource itself each "
+     "time (URL from the reference as written via abspath, text from opening "
+     "it, nothing remembered).  Does not decide equality of outcomes"))
+_AMEND["C07"].append(
+    ("text", "Does not decide arbitrary implicit Python errors.",
+     "Also decides that rendering a configuration error (str()) never "
+     "interprets user text as a format template.  Does not decide arbitrary "
+     "implicit Python errors."))
+_AMEND["C13"].append(
+    ("text", "no load-phase function writes a module global, class attribute "
+     "or mutable default;",
+     "no load-phase function writes a module global, class attribute, "
+     "class-level mutable container (through self) or mutable default;"))
 for _pid, _items in _AMEND.items():
     for _field, _old, _new in _items:
         assert _old in CLAIMS[_pid][_field], (_pid, _old)
